@@ -44,7 +44,7 @@ fn main() {
         return;
     }
     if args[1] == "c18-free" {
-        c18::child_free(&args[2], args[3].parse().unwrap());
+        c18::child_free(&args[2], args[3].parse().unwrap(), args.get(4).map(|x| x.parse().unwrap()).unwrap_or(1));
         return;
     }
     if args[1] == "c16-child" {
